@@ -20,7 +20,9 @@ RULE = ("A real Zeroconf with 1..3 registered services (sharing or not sharing a
         "and (iff the host name is not shared with a remaining service) A/AAAA/NSEC; (b) after the third goodbye no datagram "
         "carries any of those records with TTL>0, observed for 5 s. One run in eight is a 'flap': a service unregistered 0..460 ms "
         "after it was registered (its own announcements still pending) while the same name is registered again 0..600 ms later as "
-        "a different ServiceInfo; the withdrawn SRV/TXT must not reappear after their goodbyes. Distinct = (queue involved, query kind, offset bucket, host "
+        "a different ServiceInfo; the withdrawn SRV/TXT must not reappear after their goodbyes. Another one in eight is a 'sequence': "
+        "two services sharing a host withdrawn one after the other (or an address update followed by unregister) while a reply to a "
+        "host-address query is queued - nothing withdrawn may leave afterwards in any section, additionals included. Distinct = (queue involved, query kind, offset bucket, host "
         "shared, withdraw API) classes.")
 ASSUMPTIONS = ["outside the flap runs the unregister is issued after the registration's own announcement task finished (quantifier: timing relative to incoming queries)"]
 
@@ -345,11 +347,103 @@ def run_flap(res: Result, seed: int) -> None:
         res.cls("flap", "d=%d" % d, "e=%d" % e_, layout)
 
 
+def run_sequence(res: Result, seed: int) -> None:
+    """Two services sharing a host name are withdrawn one after the other (or one service is updated to another address and
+    then withdrawn) while an answer to a query for the host's addresses - whose *additional* section carries records of the
+    other service / the NSEC record - is still waiting in the aggregation or the protected queue.  After the goodbyes of the
+    last user of the host name nothing of what was withdrawn may leave the host again, in whatever section."""
+    rng = random.Random(seed)
+    res.evaluations += 1
+    layout = rng.choice(["single", "split"])
+    T = "_http._tcp.local."
+    mode = rng.choice(["two-unregisters", "two-unregisters", "update-then-unregister"])
+    a = Svc(T, "sa." + T, "seq-host.local.", 80, b"\x03a=1", [b"\x0a\x00\x00\x01"], [b"\xfe\x80" + b"\0" * 13 + b"\x01"] if mode == "two-unregisters" else [], 120, 4500)
+    b = Svc(T, "sb." + T, "seq-host.local.", 81, b"\x03b=1", [b"\x0a\x00\x00\x01"], [], 120, 4500)
+    a2 = Svc(T, "sa." + T, "seq-host.local.", 80, b"\x03a=1", [b"\x0a\x00\x00\x02"], [], 120, 4500)
+    gap = rng.choice([300.0, 700.0, 1500.0, 3000.0])
+    delta = rng.choice([5.0, 50.0, 119.0, 300.0, 700.0])
+    between = rng.choice([0.0, 10.0, 260.0, 600.0])
+    qkind = rng.choice(["aaaa", "a", "any-host", "ptr"])
+    desc = {"sequence": True, "mode": mode, "gap": gap, "delta": delta, "between": between, "question": qkind, "layout": layout}
+
+    def viol(monitor: str, kind: str, detail: str, **sig: Any) -> None:
+        res.violation(monitor, kind, detail, dict(sig, api="sequence"), {"seed": seed, "sequence": True, "scenario": desc})
+
+    out: Dict[str, Any] = {}
+    with simnet.Sim(seed & 0xFFFF) as sim:
+        async def main():
+            host = sim.net.add_host("H", "10.0.0.1", "fe80::1" if layout == "split" else None, layout=layout)
+            azc = await sim.start_host(host)
+            zc = azc.zeroconf
+            ia, ib = R.make_info(a), R.make_info(b)
+            tasks = [await zc.async_register_service(ia, cooperating_responders=True)]
+            if mode == "two-unregisters":
+                tasks.append(await zc.async_register_service(ib, cooperating_responders=True))
+            for t in tasks:
+                await t
+            await sim.sleep_ms(gap)
+            q = {"aaaa": [("seq-host.local.", 28, False)], "a": [("seq-host.local.", 1, False)], "any-host": [("seq-host.local.", 255, False)],
+                 "ptr": [(T, 12, False)]}[qkind]
+            sim.net.inject_now(host, R.build_query(q, id_=9), ("10.0.0.50", 5353))
+            await sim.sleep_ms(delta)
+            out["U"] = sim.now_ms()
+            if mode == "two-unregisters":
+                t = await zc.async_unregister_service(ia)
+                await t
+                await sim.sleep_ms(between)
+                t = await zc.async_unregister_service(ib)
+                await t
+            else:
+                ia2 = R.make_info(a2)
+                t = await zc.async_update_service(ia2)
+                await t
+                await sim.sleep_ms(between)
+                t = await zc.async_unregister_service(ia2)
+                await t
+            out["W"] = sim.now_ms()          # last withdrawal complete (third goodbye sent)
+            await sim.sleep_ms(3000)
+            await azc.async_close()
+        try:
+            sim.run(main())
+        except Exception as e:
+            viol("c08.goodbye_complete", "exception", "exception during sequence scenario: %r\n%s" % (e, tb()), exc_type=type(e).__name__)
+            return
+        if sim.net.escapes:
+            viol("c08.goodbye_complete", "loop_exception", repr(sim.net.escapes[0])[:800])
+        res.mon("c08.no_resurrection")
+        res.mon("c08.no_resurrection.sequence")
+        last = a2 if mode == "update-then-unregister" else b
+        # "those records": PTR/SRV/TXT of every withdrawn service, address and NSEC records only of the one that was the last
+        # user of the host name when it was withdrawn (the first one's stay un-withdrawn by the rule for shared host names)
+        withdrawn: Set[Tuple] = set()
+        for s_ in ([a, b] if mode == "two-unregisters" else [a2]):
+            withdrawn |= {s_.ptr(), s_.srv(), s_.txt()}
+        withdrawn |= last.addr_and_nsec()
+        if mode == "update-then-unregister":
+            withdrawn |= {a.ptr(), a.srv(), a.txt()}            # identical to a2's; the replaced address is C03's subject
+        for e in sim.net.trace:
+            if e["t"] <= out["W"] + 1e-6 or e["host"] != "H":
+                continue
+            m = wire.parse(e["data"], strict=True)
+            if not m.is_response:
+                continue
+            for r in m.answers + m.additionals:
+                ident = R.ident_of_wire(r)
+                if r.ttl > 0 and ident in withdrawn:
+                    viol("c08.no_resurrection", "record_sent_after_goodbye", "%s: %r sent with ttl %d %.0f ms after the last goodbye, as %s of a reply to the %s query" % (
+                        mode, ident, r.ttl, e["t"] - out["W"], "an answer" if r in m.answers else "an additional", qkind),
+                        kind_of_record=ident[0], section="answer" if r in m.answers else "additional")
+                    break
+        res.cls("sequence", mode, qkind, "gap=%d" % gap, "delta=%d" % delta, "between=%d" % between, layout)
+
+
 def run_shard(spec):
     res = Result()
     rng = rng_for("c08", spec["seed"], spec["shard"])
     for i in range(spec["per"]):
-        if i % 8 == 7:
+        if i % 8 == 3:
+            run_sequence(res, rng.randrange(1 << 30))
+        elif i % 8 == 7:
             run_flap(res, rng.randrange(1 << 30))
         else:
             run_scenario(res, rng.randrange(1 << 30))
@@ -358,7 +452,9 @@ def run_shard(spec):
 
 def replay(blob):
     res = Result()
-    if blob.get("flap"):
+    if blob.get("sequence"):
+        run_sequence(res, blob["seed"])
+    elif blob.get("flap"):
         run_flap(res, blob["seed"])
     else:
         run_scenario(res, blob["seed"])
